@@ -252,6 +252,8 @@ class Harness(object):
             if inside > 0:
                 if ctx.nt((sc['name'], tuple(roles), tuple(sorted(points.items())))):
                     ctx.count('judged.schedule-with-real-overlap')
+                    ctx.sample('schedule-%d-preemptions' % len(points), dict(case, lines_run_inside_window=inside,
+                                                                             outcomes=[repr(res.get(t))[:60] for t in range(len(roles))]), 3)
                 for k in points:
                     w = ctl.preempted_at.get(k)
                     if w:
